@@ -528,6 +528,59 @@ def v2(e: Engine, rep: Report):
                 return bool(ds) and all(compiled(d, depth + 1) for d in ds)
             return False
 
+        def tabled_format(name):
+            """the local is element i of a class-level tuple, or of the
+            entry picked from a class-level table of tuples, and element i
+            is a literal format string in every one of them"""
+            if f.cls is None:
+                return False
+            ds = []
+            for a in walk_own(fn):
+                if isinstance(a, ast.Assign) and len(a.targets) == 1 and \
+                        isinstance(a.targets[0], (ast.Tuple, ast.List)):
+                    for i, t in enumerate(a.targets[0].elts):
+                        if isinstance(t, ast.Name) and t.id == name:
+                            ds.append((a.value, i))
+                elif isinstance(a, ast.Assign) and any(
+                        isinstance(t, ast.Name) and t.id == name
+                        for t in a.targets):
+                    return False
+            if not ds:
+                return False
+
+            def fmt_at(tup, i):
+                return isinstance(tup, ast.Tuple) and i < len(tup.elts) and \
+                    isinstance(tup.elts[i], ast.Constant) and \
+                    isinstance(tup.elts[i].value, (str, bytes))
+            for v0, i in ds:
+                src = v0
+                if isinstance(src, ast.Call) and \
+                        isinstance(src.func, ast.Attribute) and \
+                        src.func.attr == 'get':
+                    src = src.func.value
+                elif isinstance(src, ast.Subscript):
+                    src = src.value
+                if not (isinstance(src, ast.Attribute) and
+                        isinstance(src.value, ast.Name)):
+                    return False
+                _, cv = e.p.lookup_class_attr(f.cls.qname, src.attr)
+                if cv is None:
+                    # name-mangled private attribute
+                    for k in (src.attr.lstrip('_'), '__' + src.attr.split(
+                            '__')[-1]):
+                        _, cv = e.p.lookup_class_attr(f.cls.qname, k)
+                        if cv is not None:
+                            break
+                if isinstance(cv, ast.Tuple):
+                    if not fmt_at(cv, i):
+                        return False
+                elif isinstance(cv, ast.Dict) and cv.values:
+                    if not all(fmt_at(y, i) for y in cv.values):
+                        return False
+                else:
+                    return False
+            return True
+
         def by_format(v):
             if isinstance(v, ast.Call) and not (
                     isinstance(v.func, ast.Attribute) and
@@ -566,6 +619,9 @@ def v2(e: Engine, rep: Report):
             if v.args and isinstance(v.args[0], ast.Constant) and \
                     isinstance(v.args[0].value, (str, bytes)):
                 return True          # struct.unpack('<fmt>', ...)
+            if v.args and isinstance(v.args[0], ast.Name) and \
+                    tabled_format(v.args[0].id):
+                return True          # struct.unpack(<fmt from a table>, ..)
             return compiled(v.func.value)
         return bool(defs) and all(by_format(a.value) for a in defs)
 
